@@ -76,6 +76,14 @@ type Edges struct {
 	Mid   *Edges
 }
 
+// lists of lists: the inner types of an empty outer list are known from its static type only
+type Grid struct {
+	Draft [][]Leaf
+	Final [][]Leaf
+	Names [][]string
+	Nums  [][]int32
+}
+
 type StrMap map[string]string
 type NamedMaps struct {
 	A StrMap
@@ -200,7 +208,7 @@ var zooTypes = []reflect.Type{
 	reflect.TypeOf([]int32{}), reflect.TypeOf([]string{}), reflect.TypeOf([]*Inner{}), reflect.TypeOf([]Leaf{}),
 	reflect.TypeOf([]interface{}{}), reflect.TypeOf([]float64{}), reflect.TypeOf([]int64{}), reflect.TypeOf([]time.Time{}),
 	reflect.TypeOf(map[string]string{}), reflect.TypeOf(map[string]int32{}), reflect.TypeOf(map[int32]string{}),
-	reflect.TypeOf(map[string]*Inner{}), reflect.TypeOf(AnyMaps{}), reflect.TypeOf(map[interface{}]interface{}{}), reflect.TypeOf(Edges{}),
+	reflect.TypeOf(map[string]*Inner{}), reflect.TypeOf(AnyMaps{}), reflect.TypeOf(map[interface{}]interface{}{}), reflect.TypeOf(Edges{}), reflect.TypeOf(Grid{}),
 }
 
 var timeType = reflect.TypeOf(time.Time{})
